@@ -339,7 +339,7 @@ def _sat_scalar(k, p):
         v = p["value"]
         if k == "float" and isinstance(v, float) and v != v:
             return False   # nan equals nothing
-        return _accepts_scalar(k, p, v)
+        return any(_accepts_scalar(k, p, c) for c in _pin_candidates(k, p))
     if k == "int":
         return not ("min" in p and "max" in p and p["min"] > p["max"])
     if k == "float":
@@ -475,9 +475,20 @@ def _pattern_witnesses(p):
     return _PW_CACHE[key]
 
 
+def _pin_candidates(k, p):
+    """Values that may conform to a pinned scalar: the pin itself and, for a float with a
+    precision, the other members of its rounding cell that matter (the rounded pin, the bounds)."""
+    v = p["value"]
+    out = [v]
+    if k == "float" and "precision" in p and isinstance(v, float) and math.isfinite(v):
+        out.append(round(v, p["precision"]))
+        out += [b for b in (p.get("min"), p.get("max")) if isinstance(b, float) and math.isfinite(b)]
+    return out
+
+
 def _w_scalar(k, p):
     if "value" in p:
-        return [p["value"]]
+        return _pin_candidates(k, p)
     if k == "bool":
         return [True, False]
     if k == "int":
